@@ -28,7 +28,7 @@ from fractions import Fraction
 import numpy as np
 import scipy.sparse as sps
 
-from ..common import q, qlist, qclist, fr, call_impl
+from ..common import q, qlist, qclist, fr, call_impl, vary_layout, frozen
 
 RULE = ("direct: generated matrices of every class (diagonal, general, triangular, HPD, Hermitian indefinite, Hermitian "
         "indefinite with positive diagonal, complex symmetric), n in 2..6, small-integer entries, cond <= 1e6, real/complex "
@@ -202,6 +202,12 @@ def build_direct(ctx, kind, solver, A, b, trans, cplx, obj=None, updated=False, 
     Bq, k = enc_b(b, cplx)
     req = {"m": "c05.direct", "cplx": cplx, "n": n, "k": k, "trans": trans, "B": Bq}
     tolc = 1e-10 * max(1.0, np.linalg.norm(A))
+    # the matrix is handed to update() as the caller's own array in C order, Fortran order or as a transposed view (same logical
+    # matrix); update() must not write into it
+    A_in = vary_layout(np.array(A, copy=True), (kind, solver, trans, n, float(np.abs(A).sum())))
+    ctx.branch("layout." + ("C" if A_in.flags.c_contiguous else "F"))
+    snap_in = frozen(A_in)
+    A_pristine, A = A, A_in
     if solver == "diag":
         s = S.SolverDiagonal()
         if not updated:
@@ -267,6 +273,9 @@ def build_direct(ctx, kind, solver, A, b, trans, cplx, obj=None, updated=False, 
         ok = True
     else:
         raise ValueError(solver)
+    if frozen(A_in) != snap_in:
+        return s, None, "clobbered"
+    A = A_pristine
     return s, req, ("ok" if ok else "contract")
 
 
@@ -333,6 +342,10 @@ def run_direct(ctx):
                 "b": np.asarray(b).tolist() if not bcplx else str(np.asarray(b).tolist())}
         if note == "boundary":
             ctx.skipped_boundary += 1
+            continue
+        if note == "clobbered":
+            ctx.oracle_fail(f"{type(s).__name__}.update(A) wrote into the caller's matrix (handed over Fortran-ordered): A x = b no longer "
+                            f"holds for the matrix the caller passed", dict(case, layout="F"))
             continue
         if note == "contract":
             ctx.disagree("direct-contract", case, "factorisation contract violated numerically", None)
@@ -531,6 +544,21 @@ def cg_case_list(ctx):
         cases.append(dict(A=A, b=b, x0=x0, trans=rng.choice("NTH"), pk=kinds[ci % 4], restart=rng.choice([50, 2]),
                           tol=1e-7, mmax=3, sparse=kinds[ci % 4] in ("sor", "ilu") or bool(ci % 2), exact=False,
                           family="scaled_columns"))
+    for ci in range(8 if ctx.quick else 32):
+        # an initial guess FAR from the solution (2^17 ... 2^24 times its size, exact power-of-two factors): the tolerance is
+        # relative to |b|, whatever the guess
+        cplx = ci % 3 == 2
+        n = rng.choice([4, 5, 6])
+        A = hpd_complex(rng, n) if cplx else spd(rng, n, False)
+        k = [None, 1, 3][ci % 3]
+        b = nz_cols(rint(rng, n, 1 if k is None else k, -3, 3, cplx)).astype(A.dtype)
+        x0 = rint(rng, n, 1 if k is None else k, -2, 2, cplx).astype(A.dtype)
+        x0[0, :] += 1
+        x0 = x0 * 2.0 ** rng.choice([17, 20, 24])
+        if k is None:
+            b, x0 = b[:, 0], x0[:, 0]
+        cases.append(dict(A=A, b=b, x0=x0, trans=rng.choice("NTH"), pk=kinds[ci % 4], restart=rng.choice([50, 2]),
+                          tol=1e-7, mmax=3, sparse=kinds[ci % 4] in ("sor", "ilu") or bool(ci % 2), exact=False, family="far_x0"))
     for ci in range(4 if ctx.quick else 16):
         n = rng.choice([3, 4, 5])
         A = hpd_complex(rng, n)
@@ -619,6 +647,9 @@ def run_cg(ctx):
             xmod = dec(xm, cplx)
             xi = iters[m].reshape(xmod.shape)
             sc = max(1.0, float(np.max(np.abs(xmod))))
+            if case.get("x0v") is not None and case.get("family") == "far_x0":
+                # x = x0 + (small): the floats carry an absolute error of |x0| * eps * cond
+                sc = max(sc, 1e-5 * float(np.max(np.abs(np.array(eval(case["x0v"]), dtype=complex)))))
             ncmp += 1
             if not ctx.compare_close("cg-iterate", dict(case, iterate=m + 1), xi.flatten().tolist(), xmod.flatten().tolist(),
                                      rtol=1e-7, atol=1e-8, scale=sc):
@@ -697,6 +728,9 @@ def run_reuse(ctx):
                 note = "ok"
             else:
                 _, req, note = build_direct(ctx, kind, solver, A, b, trans, cplx, obj=s, updated=True, ldl_flag=ldl_flag)
+            if note == "clobbered":
+                ctx.oracle_fail(f"{solver}: update(A) wrote into the caller's matrix", case)
+                continue
             if note == "boundary" or req is None:
                 ctx.skipped_boundary += 1
                 continue
